@@ -226,15 +226,60 @@ func ghostAddOnly(idx *WorkspaceIndex, path string, fi *FileIndex) {
 //@   ensures FIFresh(result0)
 //@ trusted (*Workspace).updateIncludeEdgesLocked
 //@   modifies w.includeGraph[*], w.reverseGraph[*]
-//@ trusted (*Workspace).updateResolvedLocked
-//@   modifies w.resolved
+
+// ---- the resolved journal of the workspace: Files (by path) and FileOrder (include order) ----
+
+//@ lemma cnt_nonneg(a []string, n int, k string) induct n := {cnt(a, n, k)} cnt(a, n, k) >= 0 && cnt(a, n, k) <= ite(n <= 0, 0, n)
+//@ lemma cnt_ext(a []string, b []string, n int, k string) induct n := {cnt(a, n, k); cnt(b, n, k)} (forall i int :: {a[i]} {b[i]} 0 <= i && i < n ==> a[i] == b[i]) ==> cnt(a, n, k) == cnt(b, n, k)
+//@ lemma cnt_mono(a []string, i int, j int, k string) induct j := {cnt(a, i, k); cnt(a, j, k)} 0 <= i && i <= j ==> cnt(a, i, k) <= cnt(a, j, k) && i - cnt(a, i, k) <= j - cnt(a, j, k)
+//@ lemma cnt_gap(a []string, j int, i int, k string) induct i := {cnt(a, j, k); cnt(a, i, k)} 0 <= j && j < i && a[j] != k ==> j - cnt(a, j, k) < i - cnt(a, i, k)
+
+//@ lemma cnt_hit(a []string, j int, n int, k string) induct n := {a[j]; cnt(a, n, k)} 0 <= j && j < n && a[j] == k ==> cnt(a, n, k) > 0
+
+// removeString is the order-preserving filter "everything but target".
+//@ func removeString
+//@   props C09 C12 C15
+//@   ensures [C09,C12,C15:removed] forall p string :: {cnt(result, len(result), p)} cnt(result, len(result), p) == ite(p == target, 0, old(cnt(values, len(values), p)))
+//@   ensures [C15:len] len(result) == len(values) - old(cnt(values, len(values), target))
+//@   ensures [C15:order_kept] forall j int :: {values[j]} 0 <= j && j < len(values) && old(values[j]) != target ==> result[j - old(cnt(values, j, target))] == old(values[j])
+//@   loop 1 invariant 0 - 1 <= rangeindex && rangeindex <= len(values) - 1 && len(values) > 0
+//@   loop 1 invariant len(result) == rangeindex + 1 - cnt(values, rangeindex + 1, target)
+//@   loop 1 invariant forall p string :: {cnt(result, len(result), p)} {cnt(values, rangeindex + 1, p)} cnt(result, len(result), p) == ite(p == target, 0, cnt(values, rangeindex + 1, p))
+//@   loop 1 invariant forall j int :: {values[j]} 0 <= j && j <= rangeindex && values[j] != target ==> result[j - cnt(values, j, target)] == values[j]
+//@   loop 1 decreases len(values) - rangeindex
+
+// addString appends target unless it is present; a present target leaves the slice (and so the order) untouched.
+//@ func addString
+//@   props C09 C12 C15
+//@   ensures [C15:present_same] old(cnt(values, len(values), target)) > 0 ==> result == values
+//@   ensures [C15:absent_append] old(cnt(values, len(values), target)) == 0 ==> len(result) == len(values) + 1 && result[len(values)] == target && (forall k int :: {result[k]} 0 <= k && k < len(values) ==> result[k] == old(values[k]))
+//@   ensures [C09,C12,C15:added] forall p string :: {cnt(result, len(result), p)} cnt(result, len(result), p) == old(cnt(values, len(values), p)) + ite(p == target && old(cnt(values, len(values), target)) == 0, 1, 0)
+//@   loop 1 invariant 0 - 1 <= rangeindex && rangeindex <= len(values) - 1 && cnt(values, rangeindex + 1, target) == 0
+//@   loop 1 decreases len(values) - rangeindex
+
+// Registering a parsed file in the resolved journal. Files and FileOrder keep describing the same set of paths
+// (pointwise: whatever agreement held for a path before still holds), and re-registering a path that is already
+// present does not touch FileOrder: the order of the include tree is a function of the tree, not of the edit history.
+//@ func (*Workspace).updateResolvedLocked
+//@   props C09 C12 C15
+//@   requires w != nil && (w.resolved != nil ==> w.resolved.Files != nil)
+//@   ensures [nonnil] w.resolved != nil && w.resolved.Files != nil && (old(w.resolved) != nil ==> w.resolved == old(w.resolved))
+//@   ensures [created] old(w.resolved) == nil ==> fresh(w.resolved) && fresh(w.resolved.Files)
+//@   ensures [C15:order_stable] old(w.resolved) != nil && journal != nil && old(cnt(w.resolved.FileOrder, len(w.resolved.FileOrder), path)) > 0 ==> w.resolved.FileOrder == old(w.resolved.FileOrder)
+//@   ensures [C15:order_others] old(w.resolved) != nil && path != w.rootJournalPath && journal != nil && old(cnt(w.resolved.FileOrder, len(w.resolved.FileOrder), path)) == 0 ==> len(w.resolved.FileOrder) == old(len(w.resolved.FileOrder)) + 1 && w.resolved.FileOrder[old(len(w.resolved.FileOrder))] == path && (forall k int :: {w.resolved.FileOrder[k]} 0 <= k && k < old(len(w.resolved.FileOrder)) ==> w.resolved.FileOrder[k] == old(w.resolved.FileOrder[k]))
+//@   ensures [C09,C12:files_order_agree] old(w.resolved) != nil ==> forall p string :: {has(w.resolved.Files, p)} {cnt(w.resolved.FileOrder, len(w.resolved.FileOrder), p)} (old(has(w.resolved.Files, p)) <==> old(cnt(w.resolved.FileOrder, len(w.resolved.FileOrder), p)) > 0) ==> (has(w.resolved.Files, p) <==> cnt(w.resolved.FileOrder, len(w.resolved.FileOrder), p) > 0)
+//@   ensures [C09,C12:entry] path != w.rootJournalPath && journal != nil ==> has(w.resolved.Files, path) && w.resolved.Files[path] == journal
+//@   ensures [C09,C12:gone] path != w.rootJournalPath && journal == nil ==> !has(w.resolved.Files, path) && cnt(w.resolved.FileOrder, len(w.resolved.FileOrder), path) == 0
+//@   ensures [C09,C12:others] old(w.resolved) != nil ==> forall p string :: {w.resolved.Files[p]} p != path ==> w.resolved.Files[p] == old(w.resolved.Files[p]) && (has(w.resolved.Files, p) <==> old(has(w.resolved.Files, p)))
+//@   ensures [C09:primary] path == w.rootJournalPath ==> w.resolved.Primary == journal && w.resolved.PrimaryPath == path
+//@   modifies w.resolved, w.resolved.Primary, w.resolved.PrimaryPath, w.resolved.FileOrder, w.resolved.Files[*]
 //@ trusted sameStringSlice
 //@   effects none
 //@ trusted (*Workspace).refreshIncludeTreeLocked
 //@   ensures old(w.cachedAccounts) == nil ==> w.cachedAccounts == nil
 //@   ensures old(w.cachedCommodities) == nil ==> w.cachedCommodities == nil
 //@   ensures old(w.cachedFormats) == nil ==> w.cachedFormats == nil
-//@   modifies w.cachedAccounts, w.cachedCommodities, w.cachedFormats, w.resolved, w.includeGraph[*], w.reverseGraph[*]
+//@   modifies w.cachedAccounts, w.cachedCommodities, w.cachedFormats, w.resolved, w.resolved.Primary, w.resolved.PrimaryPath, w.resolved.FileOrder, w.resolved.Files[*], w.includeGraph[*], w.reverseGraph[*]
 //@   modifies w.index.accountCounts[*], w.index.payeeCounts[*], w.index.commodityCounts[*], w.index.tagCounts[*], w.index.dateCounts[*], w.index.payeeTemplates[*], w.index.fileIndexes[*], w.index.tagValueCounts[*], w.index.tagValueCounts[*][*], w.index.transactionsByKey[*]
 //@   modifies w.index.accounts, w.index.payees, w.index.commodities, w.index.tags, w.index.tagValues, w.index.dates
 
@@ -250,13 +295,13 @@ func ghostAddOnly(idx *WorkspaceIndex, path string, fi *FileIndex) {
 //@   effects none
 //@   requires w != nil && w.index != nil
 
-//@ pred WsOK(w, path) := w.index != nil ==> IdxWF(w.index) && RemOK(w.index, w.index.fileIndexes[path])
+//@ pred WsOK(w, path) := (w.resolved != nil ==> w.resolved.Files != nil) && (w.index != nil ==> IdxWF(w.index) && RemOK(w.index, w.index.fileIndexes[path]))
 
 // If the file's index entry was replaced, none of the memoised views survives the update.
 //@ func (*Workspace).UpdateFile
 //@   props C12 C04 C18
 //@   requires w != nil && WsOK(w, path)
 //@   ensures [C12,C04,C18:caches_dropped_on_update] w.index != nil && fresh(w.index.fileIndexes[path]) ==> w.cachedAccounts == nil && w.cachedCommodities == nil && w.cachedFormats == nil
-//@   modifies w.cachedFormats, w.cachedCommodities, w.cachedAccounts, w.resolved, w.includeGraph[*], w.reverseGraph[*]
+//@   modifies w.cachedFormats, w.cachedCommodities, w.cachedAccounts, w.resolved, w.resolved.Primary, w.resolved.PrimaryPath, w.resolved.FileOrder, w.resolved.Files[*], w.includeGraph[*], w.reverseGraph[*]
 //@   modifies w.index.accountCounts[*], w.index.payeeCounts[*], w.index.commodityCounts[*], w.index.tagCounts[*], w.index.dateCounts[*], w.index.payeeTemplates[*], w.index.fileIndexes[*], w.index.tagValueCounts[*], w.index.tagValueCounts[*][*], w.index.transactionsByKey[*]
 //@   modifies w.index.accounts, w.index.payees, w.index.commodities, w.index.tags, w.index.tagValues, w.index.dates
